@@ -45,6 +45,7 @@ from explorerscript.ssb_converting.ssb_data_types import (
     SsbOpParamPositionMarker,
     SsbOpParamFixedPoint,
 )
+from explorerscript.ssb_converting.ssb_special_ops import OPS_WITH_JUMP_TO_MEM_OFFSET
 from explorerscript.util import open_utf8
 
 
@@ -65,12 +66,16 @@ class RoutineDict(TypedDict):
     ops: list[OpDict]
 
 
-def build_ops(ops: list[SsbOperation]) -> list[OpDict]:
+def build_ops(ops: list[SsbOperation], positions: dict[int, int]) -> list[OpDict]:
     out_ops: list[OpDict] = []
     for op in ops:
         out_op: OpDict = {"opcode": op.op_code.name, "params": []}
-        for param in op.params:
+        for i, param in enumerate(op.params):
             if isinstance(param, int):
+                if op.op_code.name in OPS_WITH_JUMP_TO_MEM_OFFSET and i == len(op.params) - 1:
+                    # The jump target. The internal offsets of the compiler can have gaps (removed jumps), the JSON
+                    # contains the position of the target operation instead (see below).
+                    param = positions[param]
                 out_op["params"].append(param)
             elif isinstance(param, SsbOpParamFixedPoint):
                 out_op["params"].append({"type": "FIXED_POINT", "value": param.value})
@@ -94,29 +99,35 @@ def build_routines_json(
     routine_infos: list[SsbRoutineInfo], named_coroutines: list[str], routine_ops: list[list[SsbOperation]]
 ) -> list[RoutineDict]:
     routines: list[RoutineDict] = []
+    # Operations are addressed by their 1-based position, counted across all routines. This is how the decompile
+    # command (and any other reader of this format) numbers them.
+    positions: dict[int, int] = {}
+    for ops in routine_ops:
+        for op in ops:
+            positions[op.offset] = len(positions) + 1
     for info, name, ops in zip(routine_infos, named_coroutines, routine_ops):
         routine: RoutineDict
         if info.type == SsbRoutineType.COROUTINE:
-            routine = {"type": "COROUTINE", "name": name, "ops": build_ops(ops)}
+            routine = {"type": "COROUTINE", "name": name, "ops": build_ops(ops, positions)}
         elif info.type == SsbRoutineType.GENERIC:
-            routine = {"type": "GENERIC", "ops": build_ops(ops)}
+            routine = {"type": "GENERIC", "ops": build_ops(ops, positions)}
         elif info.type == SsbRoutineType.ACTOR:
             routine = {
                 "type": "ACTOR",
                 "target_id": info.linked_to if info.linked_to is not -1 else info.linked_to_name,
-                "ops": build_ops(ops),
+                "ops": build_ops(ops, positions),
             }
         elif info.type == SsbRoutineType.OBJECT:
             routine = {
                 "type": "OBJECT",
                 "target_id": info.linked_to if info.linked_to is not -1 else info.linked_to_name,
-                "ops": build_ops(ops),
+                "ops": build_ops(ops, positions),
             }
         elif info.type == SsbRoutineType.PERFORMER:
             routine = {
                 "type": "PERFORMER",
                 "target_id": info.linked_to if info.linked_to is not -1 else info.linked_to_name,
-                "ops": build_ops(ops),
+                "ops": build_ops(ops, positions),
             }
         else:
             raise ValueError(f"invalid routine type {info.type}")
